@@ -575,7 +575,9 @@ static int write_bunzip_data(struct bunzip_data *bd, struct bwdata *bw,
       if (i) {
         if (i == RETVAL_LAST_BLOCK) {
           bw->writeCount = i;
-          return gotcount;
+          /* libxmp: in file mode report the end of the stream so that the
+           * caller compares the stream CRC. */
+          return len_ ? gotcount : i;
         } else return i;
       }
     }
